@@ -1,5 +1,21 @@
 (* SrcTieC09.v — the SYNTACTIC source tie of C09.  gen/SrcNormals.v is regenerated on every run by
-   translate/tr_C09_normals.py from the clang AST of src/pointset/algorithms/NormalAndCurvatureEstimation.cpp. *)
+   translate/tr_C09_normals.py from the clang AST of src/pointset/algorithms/NormalAndCurvatureEstimation.cpp, in the
+   instantiations V2 = Eigen::Vector2d, V3 = Eigen::Vector3d, H2 = HomogeneousCoordinates2d, H3 = HomogeneousCoordinates3d.
+   Here the generated terms are proved equal to the functions of NormalsModel.v the C09 theorems are about, for EVERY numeric
+   dictionary N (the proofs are by computation, case analysis and induction over the loops: the generated term and the model
+   perform the same floating-point operations in the same order):
+     tie_flip_<I>          flipNormalTowardOriginCoordinate = flip_cart (test on the Cartesian part, '>', w kept)   [NormLits N]
+     tie_reliability_<I>   computeNormalReliability = reliability
+     tie_plane_<I>         planeEstimation_ = kd_find, then eig (covariance N dim size (neighbours)), members = its components:
+                           the loop over 0..k-1 reading neighborIndexes_[i] is the model's fold over the neighbour list
+                           (fold_left_map_idx), the generated tuple-valued loop state and the model's lists / matrix entries
+                           run in lock step (fold_left_rel, one projection per covariance entry)
+     tie_compute_kd_{n,nc,ncr}_<I>   the loop of compute(): entry j of normals [, curvatures [, reliability]] after the loop is
+                           e_normal / e_curvature / e_reliability of estimate_point at point j, every other entry untouched
+                           (fold_zrange_pointwise: pass i changes entry i only)
+     tie_compute_{n,nc,ncr}_<I>      the overloads building their own kd-tree = the ones above on kd_build size points
+   and, over the reals, src_normals_unit_facing_<I>: unit length and n.p <= 0 stated on the generated terms.
+   A point / normal is a tuple of scalars in the generated terms; l2 / l3 / l4 turn it into the model's list. *)
 From Coq Require Import Reals ZArith List Bool Lia Lra.
 From Romea Require Import Num NumR NormalsModel NormalsProofs SrcEigen SrcNormalsLib.
 From Romea.gen Require Import SrcNormals.
